@@ -17,7 +17,7 @@ THEOREMS = [
 ]
 RULE = ("exhaustive product of __conform__ behaviour (11) x provided (2) x alternate (absent, None, object) x "
         "custom __adapt__ (absent, None, value, raises, delegates to super) x every hook list up to length 3 "
-        "(thorough: 4) over {None, value, raises}; interfacemethod inheritance chains up to length 3 with every "
+        "(thorough: 4; quick: length <= 1 under a non-delegating custom __adapt__) over {None, value, raises}; interfacemethod inheritance chains up to length 3 with every "
         "combination of __adapt__ / other interfacemethod / nothing per level; natural declarations "
         "(implementer, directlyProvides, alsoProvides, sub-interface, class objects with unbound __conform__); "
         "a real AdapterRegistry.adapter_hook installed in adapter_hooks; a random stream with longer chains and "
@@ -72,7 +72,10 @@ def generate(run, tier):
             for alt in ALTS:
                 for cu in CUSTOMS:
                     chain = [] if cu is None else [_lvl(cu, False)]
-                    for hs in hook_lists:
+                    # quick tier: a custom __adapt__ that does not delegate never looks at the hooks;
+                    # lists up to length 1 are enough to see that (thorough: the full product)
+                    short = not thorough and cu is not None and cu[0] != "delegate"
+                    for hs in (hook_lists[:4] if short else hook_lists):
                         cases.append(_case("prod", chain, conform, provides, hs, alt))
     # 2. interfacemethod inheritance chains (the F8 shape): every level defines __adapt__, another
     #    interfacemethod, both or nothing
@@ -263,7 +266,7 @@ def replay_text(case, obs, mode):
                           "None" if case["factory_none"] else "an adapter",
                           "" if case["alt"] is None else ", alt", "" if case["alt"] is None else ", default=alt"))
     L = [head, "import functools, operator", "from zope.interface import Interface, implementer, directlyProvides",
-         "from zope.interface.interface import adapter_hooks, interfacemethod", "log = []", "ADAPTER = object()", ""]
+         "from zope.interface.interface import adapter_hooks, interfacemethod", "log = []", ""]
     base = "Interface"
     if not case["chain"]:
         L += ["class I0(Interface):", "    pass"]
